@@ -372,6 +372,17 @@ func (fr *Frame) tr(e ast.Expr, env *Env) Val {
 					return fr.vals[p]
 				}
 			}
+			// a local that has not been declared yet on this path (early return): an arbitrary value of its type
+			if fr.fn != nil {
+				for _, b := range fr.fn.Blocks {
+					for _, in := range b.Instrs {
+						if a, ok := in.(*ssa.Alloc); ok && a.Comment == x.Name {
+							et := a.Type().(*types.Pointer).Elem()
+							return Val{c.fresh("undeclared_"+x.Name, c.sortOf(et)), et}
+						}
+					}
+				}
+			}
 		}
 		obj := curPkg.Scope().Lookup(x.Name)
 		if obj == nil {
